@@ -17,7 +17,7 @@ CONSTANTS
   PskIds = {}
   PskValues = {"none"}
   JitterChoices = {1}
-  Deviations = {"F12", "F14"}
+  Deviations = {"F12", "F14", "F24"}
   MaxApps = 0
   MaxSucc = 6
   CapX = {}
